@@ -200,6 +200,80 @@ func C04(c *fw.Ctx) {
 				model.Return(model.Bin("+", model.Id("a"), model.Id("b")))),
 			model.Print(model.CallN("fib", model.Num(float64(d%12))))})
 	}
+	// (d2) re-entrant call sites: the recursive call sits in argument position pos of a call whose
+	// other arguments depend on the current activation (the same call site is active twice)
+	for arity := 2; arity <= 3; arity++ {
+		for pos := 0; pos < arity; pos++ {
+			for _, d := range []int{0, 1, 2, 3, 5, 8} {
+				for variant := 0; variant < 3; variant++ {
+					if !c.Mine() {
+						continue
+					}
+					ps := []string{"a", "b", "cc"}[:arity]
+					var combBody *model.N = model.Id("a")
+					for _, q := range ps[1:] {
+						combBody = model.Bin("+", model.Bin("*", combBody, model.Num(100)), model.Id(q))
+					}
+					mkArgs := func(recCall *model.N) []*model.N {
+						var args []*model.N
+						for i := 0; i < arity; i++ {
+							if i == pos {
+								args = append(args, recCall)
+							} else {
+								args = append(args, model.Bin("+", model.Id("n"), model.Num(float64(i))))
+							}
+						}
+						return args
+					}
+					var prog []*model.N
+					prog = append(prog, model.Fun("comb", ps, model.Return(combBody)))
+					switch variant {
+					case 0: // direct recursion through comb's call site
+						prog = append(prog, model.Fun("rec", []string{"n"},
+							model.If(model.Bin("<=", model.Id("n"), model.Num(0)), model.Return(model.Num(0)), nil),
+							model.Return(model.CallN("comb", mkArgs(model.CallN("rec", model.Bin("-", model.Id("n"), model.Num(1))))...))))
+					case 1: // the recursive function is its own call site (Ackermann shape)
+						rps := []string{"n", "m", "k"}[:arity]
+						var args []*model.N
+						for i := 0; i < arity; i++ {
+							if i == pos {
+								inner := []*model.N{model.Bin("-", model.Id("n"), model.Num(1))}
+								for j := 1; j < arity; j++ {
+									inner = append(inner, model.Bin("+", model.Id(rps[j]), model.Num(1)))
+								}
+								args = append(args, model.CallN("rec", inner...))
+							} else if i == 0 {
+								args = append(args, model.Bin("-", model.Id("n"), model.Num(1)))
+							} else {
+								args = append(args, model.Bin("+", model.Id(rps[i]), model.Num(float64(10*i))))
+							}
+						}
+						body := []*model.N{model.If(model.Bin("<=", model.Id("n"), model.Num(0)), model.Return(model.Bin("+", model.Id(rps[arity-1]), model.Num(1))), nil)}
+						if pos == 0 {
+							// first argument recursive: keep it terminating by recursing on n-1 inside
+							args[0] = model.Bin("-", model.CallN("rec", append([]*model.N{model.Bin("-", model.Id("n"), model.Num(1))}, idsOf(rps[1:])...)...), model.CallN("rec", append([]*model.N{model.Bin("-", model.Id("n"), model.Num(1))}, idsOf(rps[1:])...)...))
+						}
+						body = append(body, model.Return(model.CallN("rec", args...)))
+						prog = append(prog, model.Fun("rec", rps, body...))
+					case 2: // arguments evaluated by a built-in call site: এড(arr, rec(n-1)) style nesting
+						prog = append(prog, model.Fun("rec", []string{"n"},
+							model.If(model.Bin("<=", model.Id("n"), model.Num(0)), model.Return(model.Arr()), nil),
+							model.Return(model.CallN(model.BiAppend, model.CallN("rec", model.Bin("-", model.Id("n"), model.Num(1))), model.Id("n"), model.CallN(model.BiLen, model.CallN("rec", model.Bin("-", model.Id("n"), model.Num(1))))))))
+					}
+					call := model.CallN("rec", model.Num(float64(d)))
+					if variant == 1 {
+						as := []*model.N{model.Num(float64(d % 4))}
+						for j := 1; j < arity; j++ {
+							as = append(as, model.Num(float64(j)))
+						}
+						call = model.CallN("rec", as...)
+					}
+					prog = append(prog, model.Print(call), model.Print(call.Clone()))
+					run(fmt.Sprintf("reentrant-call-site|%d|%d|%d", arity, pos, variant), prog)
+				}
+			}
+		}
+	}
 	// (e) closure interleavings
 	site := "top"
 	factory := func() *model.N {
@@ -352,4 +426,12 @@ func C04(c *fw.Ctx) {
 			model.Var("m2", model.CallN("outer")), model.Print(model.Call(model.CallN("m2")))})
 	}
 	c.R.Traces = c.R.States
+}
+
+func idsOf(names []string) []*model.N {
+	out := make([]*model.N, len(names))
+	for i, n := range names {
+		out[i] = model.Id(n)
+	}
+	return out
 }
